@@ -439,7 +439,22 @@ def checkpoint_error_classification(chk, prefix="C06"):
             got = z3.BoolVal(v2) if isinstance(v2, bool) else zbool(v2)
             chk.prove(f"{prefix}.exec.is_retriable", s2.pc, z3.And(got == spec_exec, (cat.t == CAT["EXECUTION"]) == spec_exec),
                       desc="classification table of checkpoint failures by HTTP status, error code and message prefix (as documented in the code): is_retriable() iff 4xx (not 429) with an error body that is not 'InvalidParameterValueException: Invalid Checkpoint Token...'",
-                      sample="CheckpointError.from_exception over an arbitrary botocore-style response")
+                      sample="CheckpointError.from_exception over an arbitrary botocore-style response",
+                      describe=(lambda g_: (lambda m: _classification_inputs(m, g_)))(g), replay=_replay_classification)
+
+
+def _classification_inputs(m, g):
+    from pyvc.concretize import concretize
+    d = {n: bool(z3.is_true(m.eval(z3.Bool(n), model_completion=True))) for n in ("has_status", "has_error", "has_meta", "has_code", "has_message")}
+    if g:
+        d.update(code=concretize(g["code"], m, None), message=concretize(g["msg"], m, None), status=concretize(g["status"], m, None))
+    return d
+
+
+def _replay_classification(inputs):
+    from pyvc.check import native
+    r_ = native("classification_replay.py", inputs)
+    return bool(r_.get("confirmed")), r_
 
 
 def zint_(v):
